@@ -2,7 +2,7 @@
 (* What `bin/check C08` runs first: model-check LimitsCollector and, in the same TLC run, write the *)
 (* case files of Limits_Cases (saves one JVM start).                                                 *)
 EXTENDS LimitsCollector, Json, SequencesExt
-CONSTANTS CollectN, SlowMax
+CONSTANTS CollectN, SlowMax, RecMaxDev
 Cases == INSTANCE Limits_Cases
 ASSUME ndJsonSerialize("records.ndjson", SetToSeq(Cases!Records))
 ASSUME ndJsonSerialize("verdicts.ndjson", SetToSeq(Cases!VerdictProgs))
